@@ -48,7 +48,7 @@ def hostile_lines(rnd):
         elif k < 0.4:
             line = bytes(rnd.getrandbits(8) for _ in range(rnd.randint(1, 40))) + b"\r\n"
         elif k < 0.5:
-            line = rnd.choice([b"\xc3\x28\r\n", b"\xff\xff\xff\r\n", b"USER \xe4\xf6\xfc\r\n", b"PASS \xa0\xa1\r\n", b"\xf0\x28\x8c\x28 x\r\n", b"CWD \xed\xa0\x80\r\n"])
+            line = rnd.choice([b"\xc3\x28\r\n", b"\xff\xff\xff\r\n", b"USER \xe4\xf6\xfc\r\n", b"PASS \xa0\xa1\r\n", b"\xf0\x28\x8c\x28 x\r\n", b"CWD \xed\xa0\x80\r\n", b"MKD /caf\xe9\r\n", b"MKD /\xff\xfe\r\n", b"MKD \xed\xa0\x80\r\n", b"MKD /hostile\r\nMKD /hostile/\xc3\x28\r\n"])
         elif k < 0.6:
             line = rnd.choice([b"\r\n", b"\n", b"\r", b"\r\r\n", b" \r\n", b"\n\n\n", b"USER a\nUSER b\n", b"PWD\rPWD\r\n"])
         elif k < 0.7:
@@ -164,6 +164,13 @@ def run_server_case(case):
                     c2, _ = await q.cmd("USER anonymous")
                     c3, _ = await q.cmd("PWD")
                     info["fresh"] = (code, c2, c3)
+                    # whatever the hostile session left in the shared tree, an ordinary session
+                    # can still list it (root and the directories the hostile lines name)
+                    lst = []
+                    for line in ("MLSD /", "LIST /", "MLSD /hostile", "LIST /hostile"):
+                        r = await q.download(line, passive="EPSV", connect="before", data_timeout=50.0)
+                        lst.append((line, r["mark"], r["final"]))
+                    info["fresh_listings"] = lst
                     await q.cmd("QUIT")
                 except (PeerGone, ReplyTimeout, ConnectionError, OSError) as e:
                     info["fresh"] = ("failed", type(e).__name__)
@@ -190,6 +197,12 @@ def run_server_case(case):
             viol.append({"clause": "bystander-session-disturbed", "subject": "transcript", "detail": f"session s{i} ({case['scripts'][i]}) next to the hostile peer: {_diff(e, e_ref)}"})
     if info.get("fresh") != ("220", "230", "257"):
         viol.append({"clause": "server-stopped-serving", "subject": "fresh-session", "detail": f"a fresh session after the hostile input got {info.get('fresh')}"})
+    else:
+        for line, mark, final in info.get("fresh_listings", [("MLSD /", None, None)]):
+            ok = (mark or "")[:1] == "1" and (final or "")[:1] == "2"
+            if not ok and not (line.endswith("/hostile") and (final or "").startswith("550")):
+                viol.append({"clause": "server-stopped-serving", "subject": "fresh-session-listing", "detail": f"after the hostile input {_short(case)} a fresh session's {line!r} ended with mark {mark} final {final}"})
+                break
     for e in world.loop.exc_log:
         if "never retrieved" in e["message"]:
             continue
